@@ -33,7 +33,7 @@ DevKill(a) ==
 DevEv == /\ Live /\ l' = l /\ DSame
          /\ IF Strict THEN Ev.a = "guard.cleanup" /\ Ev.x \in Actors /\ DevKill(Ev.x)
                       ELSE \E a \in Actors : DevKill(a)
-         /\ dev' = dev \cup {"LocalDecodeFailureKills"} /\ UNCHANGED stray
+         /\ dev' = dev \cup {"LocalDecodeFailureKills"} /\ UNCHANGED <<stray, kidop>>
 
 \* a thread-local actor that drops (after a fix) may do so without a hook event of its own
 DropSilent == /\ flavour = "local" /\ Live /\ l' = l /\ DSame /\ ND
